@@ -790,6 +790,8 @@ def _widened_operands(key):
     if op not in ("+", "-"):
         return False
     expr = key.split("|", 2)[2]
+    if expr.endswith("(" + rhs + ")"):
+        rhs = "(" + rhs + ")"
     if len(expr) >= 90 or not expr.endswith(rhs):
         return False
     lhs = expr[:len(expr) - len(rhs)].rstrip()
